@@ -201,6 +201,8 @@ var corpusHelper = [][3]string{
 	{"disco.FetchItems", "result", `<query xmlns="http://jabber.org/protocol/disco#items"><item jid="a.example.net"><?pi x?></item></query>`},
 	{"commands.Fetch", "result", `<query xmlns="http://jabber.org/protocol/disco#items"><item jid="a.example.net"/><!--c--><item jid="b.example.net"/></query>`},
 	{"blocklist.Fetch", "result", `<blocklist xmlns="urn:xmpp:blocking"><item jid="a@b"/><!--c--></blocklist>`},
+	{"bookmarks.Fetch", "result", `<pubsub xmlns="http://jabber.org/protocol/pubsub"><items node="urn:xmpp:bookmarks:1"><item id="a@b"><!--c--></item></items></pubsub>`},
+	{"pubsub.Fetch", "result", `<pubsub xmlns="http://jabber.org/protocol/pubsub"><items node="n"><item id="i1"/><?pi x?></items></pubsub>`},
 	// the follow-up page request is answered with an error
 	{"disco.FetchItems", "result", `<query xmlns="http://jabber.org/protocol/disco#items"><item jid="a.example.net"/><set xmlns="http://jabber.org/protocol/rsm"><first>a</first><last>b</last></set></query>`},
 	{"commands.Execute", "error", errPayload},
